@@ -92,7 +92,9 @@ def rule_bytes_before_dirent(ctx, R="C10/bytes-before-dirent"):
         return
     o = Origin(b)
     dd = [bi for bi, t in b.calls(lambda c: c.is_(DS + "::dump_dir_entry"))]
-    ap = [bi for bi, t in b.calls(lambda c: c.short in ("std::io::Write::write_all", "std::io::Write::write"))]
+    from rules.c09 import append_sites
+    sites = append_sites(ctx, b, o)
+    ap = [x[0] for x in sites]
     ctx.floor(R, "dump_dir_entry call in write_to_file", len(dd), 1)
     ctx.floor(R, "append write in write_to_file", len(ap), 1)
     if not dd or not ap:
@@ -109,8 +111,9 @@ def rule_bytes_before_dirent(ctx, R="C10/bytes-before-dirent"):
     # the flush that precedes the entry writes EVERYTHING appended so far (not just the range the entry names):
     # blobs a stream references may lie behind the stream's own range in the image
     o2 = Origin(b)
-    for a in ap:
-        wa = strip(o2.call_args(a)[1])
+    for (a, wa, cov, why) in sites:
+        if cov is not True:
+            ctx.check(False, R, ("write_to_file", "flush-complete"), b.where(a), "", "the flush before a directory entry does not hand every pending byte to the destination — %s" % why, unproven=cov is None)
         okall = False
         if wa[0] == "call" and wa[1].split("::")[-1] == "index":
             rng = strip(wa[2][1])
